@@ -14,6 +14,7 @@
    look for in the Go code. *)
 From Coq Require Import List ZArith Arith Bool.
 From Snow Require Import Model.Tokens Model.ProxySession Proofs.ProxySessionProofs Proofs.ProxySessionLiveProofs.
+From Snow Require Import Model.TokensConc Proofs.TokensConcProofs.
 Import ListNotations.
 
 (* A proxy with capacity N >= 1 never negotiates with or serves more than N clients at once. *)
@@ -314,3 +315,61 @@ Example C16_dial_without_timer_nonvacuous :
     forallb (fun l => negb (dial_event 0 l)) (w_open 1 ++ [LH 1 HEnd; LH 1 HRecv]) = true /\
     run V1 st (w_open 1 ++ [LH 1 HEnd; LH 1 HRecv]) <> None.
 Proof. eexists. eexists. split; [vm_compute; reflexivity|]. vm_compute. repeat split. discriminate. Qed.
+
+(* ---- overlapping callers of tokens_t (Model/TokensConc.v): any number of goroutines, each with its own program of
+   get()/ret() calls, every call two atomic steps (atomic.AddInt64, then the channel operation), interleaved by ANY
+   schedule.  The session machine above takes get/ret steps one at a time; these statements say that nothing is lost when
+   they overlap.  Tie: the conc cases (op S<n>x<rounds>) run the same programs on the real tokens_t behind one barrier and
+   are compared at every quiescent point with the extracted machine run under a pseudo-random schedule
+   (Run/ProxySessionRun.v `stress`); by the statements below the prediction is the same for every schedule. *)
+
+(* at every point of every interleaving the counter is exactly its start value plus what the steps taken so far added *)
+Theorem C16_counter_exact_under_interleaving : forall t ps sched s, balanced t ->
+  crun (cinit t ps) sched = Some s ->
+  clients (ctok s) = (clients t + progs_net ps - total net_c (todo s))%Z.
+Proof. exact counter_exact. Qed.
+
+(* the channel holds exactly one element per completed send not yet received, and never more than the capacity *)
+Theorem C16_channel_exact_under_interleaving : forall t ps sched s, balanced t -> cap t <> O ->
+  crun (cinit t ps) sched = Some s ->
+  Z.of_nat (chlen (ctok s)) = (clients t + progs_net ps - total net_h (todo s))%Z /\ chlen (ctok s) <= cap t.
+Proof. exact channel_exact. Qed.
+
+(* when every goroutine has finished: count = start + gets - rets, and counter and channel agree again *)
+Theorem C16_quiescent_count : forall t ps sched s, balanced t ->
+  crun (cinit t ps) sched = Some s -> quiescent s = true ->
+  clients (ctok s) = (clients t + progs_net ps)%Z /\ balanced (ctok s).
+Proof. exact quiescent_count. Qed.
+
+Theorem C16_quiescent_count_schedule_independent : forall t ps sched1 sched2 s1 s2, balanced t ->
+  crun (cinit t ps) sched1 = Some s1 -> quiescent s1 = true ->
+  crun (cinit t ps) sched2 = Some s2 -> quiescent s2 = true ->
+  clients (ctok s1) = clients (ctok s2).
+Proof. exact quiescent_schedule_independent. Qed.
+
+(* one round of the driver's stress (n sessions end while n others start, k short sessions each) leaves the count as it
+   was, whatever the interleaving *)
+Theorem C16_stress_round_count : forall t n k sched s, balanced t ->
+  crun (cinit t (round_progs n k)) sched = Some s -> quiescent s = true ->
+  clients (ctok s) = clients t /\ balanced (ctok s).
+Proof. exact stress_round_count. Qed.
+
+(* capacity 0 (unlimited): no caller is ever blocked *)
+Theorem C16_unlimited_never_blocks : forall s i m rest, cap (ctok s) = O ->
+  nth_error (todo s) i = Some (m :: rest) -> exists s', cstep s i = Some s'.
+Proof. exact nocap_never_blocks. Qed.
+
+(* what atomic.AddInt64 buys: with the counter as a load followed by a (clamped) store, two sessions ending together can
+   leave a slot counted for ever, and a get overlapping a ret can vanish (seed C16-m13's shape) *)
+Theorem C16_load_store_counter_refuted :
+  exists s, lrun two_rets [0; 1; 0; 1] = Some s /\ lquiescent s = true /\ lclients s = 1%Z.
+Proof. exact load_store_loses_a_release. Qed.
+Theorem C16_load_store_get_refuted :
+  exists s, lrun ret_and_get [0; 1; 1; 0] = Some s /\ lquiescent s = true /\ lclients s = 0%Z.
+Proof. exact load_store_loses_a_get. Qed.
+
+Example C16_stress_round_nonvacuous :
+  exists s, crun (cinit ex_tok (round_progs 2 1)) ex_sched = Some s /\ quiescent s = true /\ clients (ctok s) = 3%Z.
+Proof. exact ex_round_runs. Qed.
+Example C16_stress_round_start_balanced : balanced ex_tok.
+Proof. exact ex_tok_balanced. Qed.
